@@ -1475,6 +1475,11 @@ def call_builtin_class(I, st, c, args, kwargs):
     elif n == "type":
         yield st, type_of(I, st, args[0])
     elif n == "range":
+        bad = [a for a in args if a is None or isinstance(a, (tuple, str)) or (isinstance(a, Ref) and st.get(a).kind in ("list", "dict", "set"))]
+        if bad:
+            # range(None) / range((2, 3)) / range("3") / range([..]): exactly Python's TypeError
+            yield st, exc("TypeError", "object cannot be interpreted as an integer")
+            return
         yield st, make_range(I, st, args)
     elif n == "ndarray":
         from . import npmodel
